@@ -10,7 +10,9 @@
    History: re-synchronised with /repo after fixes 61d7222 (new row: TLS 1.3 client compares the
    CertificateVerify scheme with the offered signature_algorithms when no delegated credential is
    used -> client13) and 11c0ed7 (guard of the srpUsername assignment now requires an SRP suite
-   -> server12). *)
+   -> server12).  Re-synchronised with /repo 40ad8d2: the handshake wrapper's failure action now maps
+   TLSIllegalParameterException / TLSDecodeError / TLSDecryptionFailed to alerts (6da5459 -> map_exn in
+   the model); guard text of the TLS <= 1.2 client resumption branch changed (C13's subject). *)
 From Coq Require Import List String.
 Import ListNotations.
 Open Scope string_scope.
@@ -76,7 +78,7 @@ Definition expected_sites : list (string * string * string * string * string * s
    "", "-");
   ("tlsconnection.py", "TLSConnection._clientResume", "check",
    "self._getFinished(session.masterSecret, session.cipherSuite)",
-   "session and (session.sessionID and serverHello.session_id == session.sessionID or sessi...", "-");
+   "session and (session.sessionID or session.tls_1_0_tickets) and serverHello.session_id a...", "-");
   ("tlsconnection.py", "TLSConnection._clientKeyExchange", "assign",
    "serverCertChain = None",
    "", "-");
@@ -202,7 +204,7 @@ Definition expected_sites : list (string * string * string * string * string * s
    "", "alert:decrypt_error");
   ("tlsconnection.py", "TLSConnection._handshakeWrapperAsync", "check",
    "checker(self)",
-   "checker", "-|except TLSAuthenticationError->reraise|except GeneratorExit->reraise;TLSAlert->reraise;any->reraise");
+   "checker", "-|except TLSAuthenticationError->reraise|except GeneratorExit->reraise;TLSAlert->reraise;TLSIllegalParameterException->alert:illegal_parameter;TLSDecodeError->alert:decode_error;TLSDecryptionFailed->alert:decrypt_error;any->reraise");
   ("tlsconnection.py", "TLSConnection._pickServerKeyExchangeSig", "compare",
    "hashAndAlgsExt.sigalgs is None",
    "", "continue");
